@@ -29,6 +29,16 @@ class UserError(Exception):
     pass
 
 
+class AttrCell(object):
+    """a plain attribute overridden with asynq.scoped_value.async_override"""
+
+    def __init__(self):
+        self.value = 0
+
+    def get(self):
+        return self.value
+
+
 class FlushError(Exception):
     pass
 
@@ -140,6 +150,7 @@ class Harness(object):
         self.HBatch, self.HItem, self.HCtx, self.HNonAsync = HBatch, HItem, HCtx, HNonAsync
         self.scoped_value = scoped_value
         self._override_cls = None
+        self._attr_override_cls = None
 
         @asynq.asynq()
         def task_fn(body, inh, me):
@@ -270,6 +281,30 @@ class Harness(object):
             obj = self.HCtx(cid)
         elif c[0] == "nonasync":
             obj = self.HNonAsync(cid)
+        elif c[0] == "override" and c[1] != 0:
+            cell = self.get_sv(c[1])
+            if self._attr_override_cls is None:
+                base = self.scoped_value.async_override
+                H = self
+
+                class LoggedAttrOverride(base):
+                    def resume(self):
+                        H.emit(["ctx", "R", self.cid])
+                        base.resume(self)
+
+                    def pause(self):
+                        H.emit(["ctx", "P", self.cid])
+                        base.pause(self)
+
+                    def __exit__(self, ty, value, tb):
+                        try:
+                            return base.__exit__(self, ty, value, tb)
+                        finally:
+                            H.emit(["ctxX", self.cid])
+
+                self._attr_override_cls = LoggedAttrOverride
+            obj = self._attr_override_cls(cell, "value", c[2])
+            obj.cid = cid
         elif c[0] == "override":
             sv = self.get_sv(c[1])
             if self._override_cls is None:
@@ -300,9 +335,15 @@ class Harness(object):
         return obj
 
     def get_sv(self, var):
+        """variable 0 is an AsyncScopedValue, every other variable is an attribute overridden with async_override
+        (both are modelled by the same save/restore context in the machine)"""
         sv = self.sv.get(var)
         if sv is None:
-            sv = self.sv[var] = self.scoped_value.AsyncScopedValue(0)
+            if var == 0:
+                sv = self.scoped_value.AsyncScopedValue(0)
+            else:
+                sv = AttrCell()
+            self.sv[var] = sv
         return sv
 
     def spawn(self, st, child, passrefs):
